@@ -859,17 +859,26 @@ class H2Stream:
 
             input_ = StreamInputs.SEND_INFORMATIONAL_HEADERS
 
-        events = self.state_machine.process_input(input_)
+        sm = self.state_machine
+        previous = (sm.state, sm.client, sm.headers_sent, sm.trailers_sent)
+        events = sm.process_input(input_)
 
-        # This has to be checked before the block is encoded, too.
-        if self.state_machine.trailers_sent and not end_stream:
-            raise ProtocolError("Trailers must have END_STREAM set.")
+        try:
+            # This has to be checked before the block is encoded, too.
+            if sm.trailers_sent and not end_stream:
+                raise ProtocolError("Trailers must have END_STREAM set.")
 
-        hf = HeadersFrame(self.stream_id)
-        hdr_validation_flags = self._build_hdr_validation_flags(events)
-        frames = self._build_headers_frames(
-            headers, encoder, hf, hdr_validation_flags, reserved_bytes
-        )
+            hf = HeadersFrame(self.stream_id)
+            hdr_validation_flags = self._build_hdr_validation_flags(events)
+            frames = self._build_headers_frames(
+                headers, encoder, hf, hdr_validation_flags, reserved_bytes
+            )
+        except Exception:
+            # The state machine accepted a header block, but the block itself
+            # was refused and nothing will be sent: the stream is where it
+            # was before the call.
+            sm.state, sm.client, sm.headers_sent, sm.trailers_sent = previous
+            raise
 
         if end_stream:
             # Not a bug: the END_STREAM flag is valid on the initial HEADERS
